@@ -260,6 +260,17 @@ def run_op(op, kw):
                 objs = [m.get_objective_value() for _ in range(3)]
                 getter_ok &= objs[0] == objs[1] == objs[2]
                 res["objective"] = canon(objs[0])
+            # the filtering variants of the getter: the unfiltered answer stays what it is, the default answer too
+            import inspect
+            try:
+                par = [p_ for p_ in inspect.signature(m.get_solution).parameters if p_.startswith("remove_empty")]
+            except (TypeError, ValueError):
+                par = []
+            if par:
+                u1 = canon(copy.deepcopy(m.get_solution(**{par[0]: False}))); f1 = canon(copy.deepcopy(m.get_solution(**{par[0]: True})))
+                u2 = canon(copy.deepcopy(m.get_solution(**{par[0]: False}))); d2 = canon(copy.deepcopy(m.get_solution()))
+                drop = lambda d_: {k_: v_ for k_, v_ in d_.items() if not str(k_).startswith("_")}
+                getter_ok &= drop(u1) == drop(u2) and drop(d2) == drop(sols[0])
         return res, getter_ok, None
     except Exception as e:
         return res, True, ci.exc_kind(e) + ": " + str(e)[:100]
